@@ -501,12 +501,24 @@ theorem loop_step {s : Store} {root : Ino} {v : View} {mode : SlMode} {parent : 
       constructor
       · intro h; exact List.eq_nil_of_length_eq_zero (by omega)
       · intro h; subst h; simp; omega
+    -- the repaired walk refuses a lookup in the root directory without its search permission
+    obtain ⟨m0, ch0, hgp⟩ : ∃ m0 ch0, s.get parent = some (.dir m0 ch0) := by
+      unfold isDirAt at hdir
+      split at hdir
+      · exact ⟨_, _, by assumption⟩
+      · cases hdir
+    by_cases hden : parent = v.root ∧ checkPerm m0 omLookup v = false
+    · refine .done ⟨parent, none, saved.getD it1, .acces⟩ ?_
+        (post_other _ _ _ hdir (by simp) (by simp)) (by simp)
+      intro fuel
+      rw [searchLoop]
+      simp [hnext, hpart, hgp, hden.1.symm, hden.2]
     cases hch : s.child parent seg with
     | none =>
       refine .done ⟨parent, none, saved.getD it1, .noent⟩ ?_ (post_noent hdir hS hpo1 hvn hch) (by simp)
       intro fuel
       rw [searchLoop]
-      simp [hnext, hpart, hch]
+      simp [hnext, hpart, hgp, hden, hch]
     | some c =>
       have halloc := hwf.alloc parent seg c hch
       cases hg : s.get c with
@@ -518,7 +530,7 @@ theorem loop_step {s : Store} {root : Ino} {v : View} {mode : SlMode} {parent : 
           · refine .done ⟨parent, some c, saved.getD it1, .exists⟩ ?_ (post_exists hwf hdir hS hpo1 hch) (by simp)
             intro fuel
             rw [searchLoop]
-            simp [hnext, hpart, hch, hg, hl]
+            simp [hnext, hpart, hgp, hden, hch, hg, hl]
           · by_cases hperm : checkPerm m omLookup v = true
             · have htl : ∃ suf', tail = SL :: suf' ∧ okP true suf' = true := by
                 rcases htail with h | h
@@ -530,7 +542,7 @@ theorem loop_step {s : Store} {root : Ino} {v : View} {mode : SlMode} {parent : 
                  pre ++ SL :: seg, suf', ?_, ?_, Or.inl hok'⟩ hS ?_
               · intro fuel
                 rw [searchLoop]
-                simp [hnext, hpart, hch, hg, hl, hperm]
+                simp [hnext, hpart, hgp, hden, hch, hg, hl, hperm]
               · rw [hp1, hp, hsplit]; simp
               · rw [hsp1]; simp; omega
               · apply measure_advance _ _ _ _ hp1
@@ -540,31 +552,31 @@ theorem loop_step {s : Store} {root : Ino} {v : View} {mode : SlMode} {parent : 
                 (post_other _ _ _ hdir (by simp) (by simp)) (by simp)
               intro fuel
               rw [searchLoop]
-              simp [hnext, hpart, hch, hg, hl, hperm]
+              simp [hnext, hpart, hgp, hden, hch, hg, hl, hperm]
         | file m d nl id =>
           by_cases hl : it1.isLast = true
           · refine .done ⟨parent, some c, saved.getD it1, .exists⟩ ?_ (post_exists hwf hdir hS hpo1 hch) (by simp)
             intro fuel
             rw [searchLoop]
-            simp [hnext, hpart, hch, hg, hl]
+            simp [hnext, hpart, hgp, hden, hch, hg, hl]
           · refine .done ⟨parent, some c, saved.getD it1, .notdir⟩ ?_
               (post_other _ _ _ hdir (by simp) (by simp)) (by simp)
             intro fuel
             rw [searchLoop]
-            simp [hnext, hpart, hch, hg, hl]
+            simp [hnext, hpart, hgp, hden, hch, hg, hl]
         | symlink m link =>
           by_cases hcount : slCount + 1 > slCountMax
           · refine .done ⟨parent, some c, saved.getD it1, .loop⟩ ?_
               (post_other _ _ _ hdir (by simp) (by simp)) (by simp)
             intro fuel
             rw [searchLoop]
-            simp [hnext, hpart, hch, hg, hcount]
+            simp [hnext, hpart, hgp, hden, hch, hg, hcount]
           · by_cases hx : (it1.isLast && mode == .lstat) = true
             · refine .done ⟨parent, some c, saved.getD it1, .exists⟩ ?_ (post_exists hwf hdir hS hpo1 hch)
                 (by simp)
               intro fuel
               rw [searchLoop]
-              simp [hnext, hpart, hch, hg, hcount, hx]
+              simp [hnext, hpart, hgp, hden, hch, hg, hcount, hx]
             · have hroot1 : isRooted it1.path = true := by rw [hp1]; exact hrt
               obtain ⟨it2, reset, r, hrep, hp2, hr2, hvl2, hlen2, hres, hnres⟩ :=
                 replace_spec it1 pre seg tail link (by rw [hp1, hp, hsplit]) hst1 hsp1 (by rw [hvl1, hvl]) hroot1
@@ -573,7 +585,7 @@ theorem loop_step {s : Store} {root : Ino} {v : View} {mode : SlMode} {parent : 
                 (if it1.isLast && mode == .stat && saved.isNone then some it1 else saved) ?_ ?_ ?_ ?_
               · intro fuel
                 rw [searchLoop]
-                simp [hnext, hpart, hch, hg, hcount, hx, hrep]
+                simp [hnext, hpart, hgp, hden, hch, hg, hcount, hx, hrep]
               · refine ⟨?_, by omega, hvl2, by rw [hp2]; simp [isRooted], ?_⟩
                 · cases reset <;> simp [hv.rootDir, hdir]
                 · cases reset with
